@@ -336,19 +336,21 @@ def _validator_atoms(name: str):
                 len(a.ops) != 1:
             return None
         l, r, op = a.left, a.comparators[0], a.ops[0]
+        # the names are bytes everywhere these validators run: a str
+        # constant can never compare equal and is not a test
         if isinstance(op, ast.In) and dotted(r) == name and \
                 isinstance(l, ast.Constant):
-            if l.value in (b'/', '/'):
+            if l.value == b'/':
                 return 'slash'
-            if l.value in (b'\\', '\\'):
+            if l.value == b'\\':
                 return 'backslash'
         if isinstance(op, ast.Eq) and dotted(l) == name and \
-                isinstance(r, ast.Constant) and r.value in (b'..', '..'):
+                isinstance(r, ast.Constant) and r.value == b'..':
             return 'dotdot'
         if isinstance(op, ast.In) and dotted(l) == name and \
                 isinstance(r, (ast.Tuple, ast.Set, ast.List)):
-            vals = {e.value for e in r.elts if isinstance(e, ast.Constant)}
-            if b'..' in vals or '..' in vals:
+            vals = [e.value for e in r.elts if isinstance(e, ast.Constant)]
+            if any(isinstance(v, bytes) and v == b'..' for v in vals):
                 return 'dotdot'
         return None
     return kind
